@@ -1413,3 +1413,54 @@ def m_nd_mapv(I, a, t, c):
     if n is None:
         return Agg('array', 0, [I.call_closure(a[1], [x]) for x in vals])
     return Nd2([[I.call_closure(a[1], [x]) for x in row] for row in n.rows], n.ncols)
+
+
+# ---------------------------------------------------------------------------------------------------- str::parse::<prim>
+def _f32(x):
+    import struct as _st
+    try:
+        return _st.unpack('<f', _st.pack('<f', x))[0]
+    except OverflowError:
+        return math.inf if x > 0 else -math.inf
+
+
+def m_str_parse_prim(I, a, t, c):
+    """`s.parse::<T>()` for the primitive targets a command-line value parser uses: the grammar of FromStr for f64 / f32 (decimal,
+    exponent, inf / infinity / nan, no surrounding blanks) and for the integer types (optional sign, digits, range-checked);
+    an f32 target rounds to the nearest single-precision value."""
+    import re as _re
+    from .interp import StrV, _norm_chars
+    ty = I.resolve_ty(c.gargs[0]) if c and c.gargs else None
+    sv = deref_all(I, a[0]) if isinstance(a[0], RefV) else a[0]
+    if not isinstance(sv, StrV):
+        raise Unsupported('str::parse on %r' % (sv,))
+    chars = _norm_chars(sv.chars)
+    if not all(isinstance(ch, str) for ch in chars):
+        raise Unsupported('str::parse on a symbolic string')
+    txt = ''.join(chars)
+    if ty in ('f64', 'f32'):
+        if _re.match(r'^[+-]?((\d+\.?\d*|\.\d+)([eE][+-]?\d+)?|inf|infinity|nan)$', txt, _re.I) and not _re.match(r'^[+-]?\.?([eE]|$)', txt):
+            v = float(txt)
+            return _ok(_f32(v) if ty == 'f32' else v)
+        return _err(Opaque(('ParseFloatError', txt)))
+    if ty in INTS:
+        w, signed = INTS[ty]
+        if _re.match(r'^[+-]?\d+$' if signed else r'^\+?\d+$', txt):
+            v = int(txt)
+            lo, hi = (-(1 << (w - 1)), (1 << (w - 1)) - 1) if signed else (0, (1 << w) - 1)
+            if lo <= v <= hi:
+                return _ok(BV(w, v & ((1 << w) - 1), signed=signed) if signed else BV(w, v))
+        return _err(Opaque(('ParseIntError', txt)))
+    raise Unsupported('str::parse::<%s>' % ty)
+
+
+def _m_float_from(I, a, t, c):
+    v = deref_all(I, a[0]) if isinstance(a[0], RefV) else a[0]
+    x = float(v.sval() if getattr(v, 'signed', False) else I.conc(v)) if isinstance(v, BV) else float(v)
+    return _f32(x) if (c.name or '').endswith('for f32>::from') else x
+
+
+for _src in ('f32', 'u8', 'u16', 'u32', 'i8', 'i16', 'i32', 'bool'):
+    MODELS.setdefault('std::convert::num::<impl std::convert::From<%s> for f64>::from' % _src, _m_float_from)
+for _src in ('u8', 'u16', 'i8', 'i16', 'bool'):
+    MODELS.setdefault('std::convert::num::<impl std::convert::From<%s> for f32>::from' % _src, _m_float_from)
